@@ -239,6 +239,9 @@ var regexpTests = []struct {
 		mustNotMatch: []string{"a"},
 	},
 	{pat: `[z-a]`, wantErr: `^invalid range: z-a$`},
+	{pat: `[+-\*]`, wantErr: `^invalid range: \+-\*$`},
+	{pat: `[*-\+]`, want: `(?s)[*-\+]`},
+	{pat: `[a-\]]`, wantErr: `^invalid range: a-\]$`},
 	{pat: `[a-a]`, want: `(?s)[a-a]`},
 	{pat: `[aa]`, want: `(?s)[aa]`},
 	{pat: `[0-4A-Z]`, want: `(?s)[0-4A-Z]`},
